@@ -335,6 +335,37 @@ def c15(run):
         it.call_func(fobj, [selfobj, ("i", "j"), v], {})
         return N, E, inc, out, v
 
+    # __init__ establishes the invariant the harness above starts from: incoming / outgoing map every node to a *set* (no successor is
+    # listed twice, whatever the number of assignments to an edge), N is an empty set
+    name0 = "C15/linear.WeightedGraph.__init__/wf"
+    fn0 = source.find(LIN, "WeightedGraph.__init__")
+    run.function_under_contract("genlm.grammar.linear.WeightedGraph.__init__", source.sha(fn0))
+    try:
+        it0 = I.Interp(I.Path([]))
+        o0 = Bag()
+        g0 = {"defaultdict": I.Native("defaultdict", lambda i2, a, k: ("defaultdict", a[0] if a else None))}
+        it0.call_func(I.FuncObj(fn0, I.Env(None, g0), "WeightedGraph.__init__"), [o0, Bag(chart=I.Native("chart", lambda i2, a, k: "chart"))], {})
+        f0 = o0.f
+        setb = I.BUILTINS["set"]
+        ok0 = f0.get("incoming") == ("defaultdict", setb) and f0.get("outgoing") == ("defaultdict", setb) and f0.get("N") == set() and f0.get("E") == "chart"
+        if ok0:
+            run.obligation(name0, "proved", backend="pyvc", detail="N = {} ; incoming, outgoing = defaultdict(set) ; E = WeightType.chart()")
+        else:
+            replay = dict(replayed=False, fields={k: repr(v)[:60] for k, v in f0.items()})
+            try:
+                from genlm.grammar.linear import WeightedGraph as RealWG
+                from genlm.grammar.semiring import Float
+                g = RealWG(Float)
+                g["i", "j"] += 0.25
+                g["i", "j"] += 0.25
+                replay.update(input="G = WeightedGraph(Float); G['i','j'] += 0.25 (twice)", outgoing_i=repr(list(g.outgoing["i"])), incoming_j=repr(list(g.incoming["j"])))
+                replay["replayed"] = list(g.outgoing["i"]) != ["j"] or list(g.incoming["j"]) != ["i"]
+            except Exception as e:  # noqa: BLE001
+                replay.update(native_error=repr(e), replayed=True)
+            run.obligation(name0, "refuted", backend="pyvc", detail="adjacency maps are not defaultdict(set): " + repr({k: f0.get(k) for k in ("incoming", "outgoing")})[:150],
+                           replay=replay, signature="WeightedGraph.__init__:wf")
+    except (I.OutOfSubset, I.PyRaise) as e:
+        run.obligation(name0, "out-of-subset", detail=str(e))
     try:
         res = I.explore(harness)
         ok = True
